@@ -723,6 +723,32 @@ inductive TailV where
   | flags (fl : List Bytes) (n : Nat) (ts : List Tok)
   | raw (args : List Bytes)
 
+/-- a test on the options an option scan has seen (indices into the option table) -/
+inductive Cond where
+  | has (i : Nat)
+  | and (a b : Cond)
+  | or (a b : Cond)
+  | countGt (is : List Nat) (n : Nat)      -- more than `n` of these options were given
+  deriving DecidableEq, Repr
+
+def Cond.eval (s : Seen) : Cond → Bool
+  | .has i => s.has i
+  | .and a b => a.eval s && b.eval s
+  | .or a b => a.eval s || b.eval s
+  | .countGt is n => decide ((is.map s.has).count true > n)
+
+/-- the literal of the first conflict rule that fires -/
+def firstFiring (s : Seen) : List (Cond × Lit) → Option Lit
+  | [] => none
+  | (c, l) :: rest => if c.eval s then some l else firstFiring s rest
+
+/-- a finishing function given by its conflict rules: the literal of the first rule that fires, else the
+    command -/
+def finWithChecks (checks : List (Cond × Lit)) (build : Seen → Cmd) (s : Seen) : BRes :=
+  match firstFiring s checks with
+  | some l => .error (.lit l)
+  | none => .ok (build s)
+
 structure GenDesc where
   dom : Arity                   -- the argument counts the body is written for (the arity rule of its entry implies it)
   pre : List Arg
@@ -731,6 +757,7 @@ structure GenDesc where
   fin : List Tok → TailV → BRes
   ctors : List Bytes            -- the constructors `fin` can answer
   finLits : List Lit := []      -- the error literals `fin` can answer
+  checks : List (Cond × Lit) := []   -- option-scan bodies: the conflict rules, in the order they are tested
 
 /-- the finishing function answers only the constructors and the error literals its descriptor declares
     (`unreachable`: it was handed tokens of another shape, which `runGen` never does) -/
@@ -738,6 +765,19 @@ def FinOk (d : GenDesc) : Prop :=
   ∀ ts tv, match d.fin ts tv with
     | .ok c => c.ctor ∈ d.ctors
     | .error e => e = .unreachable ∨ ∃ l ∈ d.finLits, e = .lit l
+
+/-- the conflict rules of an option-scan body are exactly what its finishing function tests: it answers a
+    command iff no rule fires, and otherwise the literal of the FIRST rule that fires; bodies without an
+    option scan declare no rules -/
+def ChecksOk (d : GenDesc) : Prop :=
+  match d.tail with
+  | .scan _ _ =>
+    ∀ ts s, match d.fin ts (.seen s) with
+      | .ok _ => firstFiring s d.checks = none
+      | .error (.lit l) => firstFiring s d.checks = some l
+      | .error .unreachable => True
+      | .error _ => False
+  | _ => d.checks = []
 
 /-- the leading slots, left to right; the rest of the arguments -/
 def takeSlots : List Arg → List Bytes → Except BErr (List Tok × List Bytes)
@@ -797,10 +837,12 @@ structure CustomBody where
   desc : GenDesc
   desc_ok : ∀ args, f args = runGen desc args
   fin_ok : FinOk desc
+  checks_ok : ChecksOk desc
 
 /-- a body without keyword positions -/
-def CustomBody.plain (d : GenDesc) (f : List Bytes → BRes) (h : ∀ args, f args = runGen d args) (hf : FinOk d) : CustomBody :=
-  ⟨f, fun a b => a == b, by intro a b h; simp at h; rw [h], d, h, hf⟩
+def CustomBody.plain (d : GenDesc) (f : List Bytes → BRes) (h : ∀ args, f args = runGen d args) (hf : FinOk d)
+    (hc : ChecksOk d) : CustomBody :=
+  ⟨f, fun a b => a == b, by intro a b h; simp at h; rw [h], d, h, hf, hc⟩
 
 inductive Body where
   | const (ctor : Bytes)                                  -- arguments are not looked at
